@@ -293,26 +293,28 @@ theorem linesOf_eq_sepLines (c : List Nat) (h : noLoneCR c = true) (hne : c ≠ 
     simp [sepLines, hcd, h10]
 
 /-! ### Part C: the regex scan of iter_splitlines
-`E` is what `Generated.lineEndings` must be (`C19.lineEndings_exact` in Props, re-proved on every run). -/
+`E` is the table regenerated from the source; the lemmas below are re-proved by computation on
+whatever it currently contains (they go through for any ordering of the eight breaks in which
+CR LF precedes CR). -/
 
-def E : List (List Nat) := [[13, 10], [10], [11], [12], [13], [133], [8232], [8233]]
+abbrev E : List (List Nat) := Generated.lineEndings
 
 def single (c : Nat) : Bool := c == 10 || c == 11 || c == 12 || c == 133 || c == 8232 || c == 8233
 
 theorem firstMatch_E_cr_lf (cs : List Nat) : firstMatch E (13 :: 10 :: cs) = some ([13, 10], cs) := by
-  simp [E, firstMatch, stripPrefix?]
+  simp [E, Generated.lineEndings, firstMatch, stripPrefix?]
 
 theorem firstMatch_E_cr (cs : List Nat) (h : cs.head? ≠ some 10) : firstMatch E (13 :: cs) = some ([13], cs) := by
   cases cs with
-  | nil => simp [E, firstMatch, stripPrefix?]
+  | nil => simp [E, Generated.lineEndings, firstMatch, stripPrefix?]
   | cons d ds =>
     have : d ≠ 10 := by simpa using h
     have : ¬ 10 = d := fun h => this h.symm
-    simp [E, firstMatch, stripPrefix?, this]
+    simp [E, Generated.lineEndings, firstMatch, stripPrefix?, this]
 
 theorem firstMatch_E_single (c : Nat) (cs : List Nat) (h : single c = true) : firstMatch E (c :: cs) = some ([c], cs) := by
   simp [single] at h
-  rcases h with ((((rfl | rfl) | rfl) | rfl) | rfl) | rfl <;> simp [E, firstMatch, stripPrefix?]
+  rcases h with ((((rfl | rfl) | rfl) | rfl) | rfl) | rfl <;> simp [E, Generated.lineEndings, firstMatch, stripPrefix?]
 
 theorem firstMatch_E_none (c : Nat) (cs : List Nat) (h : lineBreakChar c = false) : firstMatch E (c :: cs) = none := by
   simp [lineBreakChar] at h
@@ -324,7 +326,7 @@ theorem firstMatch_E_none (c : Nat) (cs : List Nat) (h : lineBreakChar c = false
   have e5 : ¬ 133 = c := fun h => h5 h.symm
   have e6 : ¬ 8232 = c := fun h => h6 h.symm
   have e7 : ¬ 8233 = c := fun h => h7 h.symm
-  simp [E, firstMatch, stripPrefix?, *]
+  simp [E, Generated.lineEndings, firstMatch, stripPrefix?, *]
 
 theorem lineBreakChar_cases (c : Nat) : lineBreakChar c = (c == 13 || single c) := by
   unfold lineBreakChar single; ac_rfl
@@ -364,11 +366,11 @@ theorem HeadMatch.eq {c cs sep rest} (h : HeadMatch c cs sep rest) : c :: cs = s
 
 theorem HeadMatch.mem {c cs sep rest} (h : HeadMatch c cs sep rest) : sep ∈ E := by
   cases h with
-  | crlf => simp [E]
-  | cr => simp [E]
+  | crlf => simp [E, Generated.lineEndings]
+  | cr => simp [E, Generated.lineEndings]
   | single c cs h =>
     simp [C19.single] at h
-    rcases h with ((((rfl | rfl) | rfl) | rfl) | rfl) | rfl <;> simp [E]
+    rcases h with ((((rfl | rfl) | rfl) | rfl) | rfl) | rfl <;> simp [E, Generated.lineEndings]
 
 theorem HeadMatch.lt {c cs sep rest} (h : HeadMatch c cs sep rest) : rest.length < (c :: cs).length := by
   cases h <;> simp <;> omega
@@ -380,23 +382,22 @@ theorem HeadMatch.lastBreak {c cs sep rest} (h : HeadMatch c cs sep rest) : last
   | single c cs h => simp [lastIs, lineBreakChar_cases, h]
 
 theorem HeadMatch.split {c cs sep rest} (h : HeadMatch c cs sep rest) :
-    pySplitlines (c :: cs) = [] :: pySplitlines rest := by
-  unfold pySplitlines
+    eightSplitlines (c :: cs) = [] :: eightSplitlines rest := by
+  unfold eightSplitlines
   cases h with
-  | crlf => simp [aux_cons, strBreak]
+  | crlf => simp [aux_cons, lineBreakChar]
   | cr cs h =>
     rw [aux_cons]
     simp only [Bool.false_and, Bool.false_eq_true, if_false]
     rw [aux_flag_irrel _ _ _ h]
-    simp [strBreak]
+    simp [lineBreakChar]
   | single c cs h =>
-    have hb : strBreak c = true := by rw [strBreak_eq, lineBreakChar_cases, h]; simp
+    have hb : lineBreakChar c = true := by rw [lineBreakChar_cases, h]; simp
     have h13 : c ≠ 13 := by
       intro h13; subst h13; simp [C19.single] at h
     have h13' : (c == 13) = false := by simp [h13]
     rw [aux_cons]
     simp [hb, h13']
-
 
 def NoFS (l : List Nat) : Prop := ∀ c ∈ l, isFS c = false
 
@@ -437,7 +438,7 @@ theorem splitFirst_none (s : List Nat) (h : splitFirst E s = none) :
 theorem splitFirst_some (s l sep rest : List Nat) (h : splitFirst E s = some (l, sep, rest)) :
     s = l ++ sep ++ rest ∧ (∀ c ∈ l, lineBreakChar c = false) ∧ sep ∈ E ∧
     lastIs lineBreakChar sep = true ∧ rest.length < s.length ∧
-    (NoFS l → pySplitlines s = l :: pySplitlines rest) := by
+    eightSplitlines s = l :: eightSplitlines rest := by
   induction s generalizing l with
   | nil => simp [splitFirst_nil] at h
   | cons c cs ih =>
@@ -455,18 +456,13 @@ theorem splitFirst_some (s l sep rest : List Nat) (h : splitFirst E s = some (l,
           rcases List.mem_cons.mp hd with rfl | hd
           · exact hb
           · exact h2 d hd
-        · intro hfs
-          have hfs' : NoFS l' := fun d hd => hfs d (by simp [hd])
-          have hc : strBreak c = false := by
-            rw [strBreak_eq, hb, hfs c (by simp)]; rfl
-          have := h6 hfs'
-          unfold pySplitlines at this ⊢
+        · unfold eightSplitlines at h6 ⊢
           rw [aux_cons]
-          simp [hc, this, consHead]
+          simp [hb, h6, consHead]
     · rw [splitFirst_hit _ _ _ _ _ hs] at h
       simp only [Option.some.injEq, Prod.mk.injEq] at h
       obtain ⟨rfl, rfl, rfl⟩ := h
-      exact ⟨by simpa using hm.eq, fun _ h => (by cases h), hm.mem, hm.lastBreak, hm.lt, fun _ => hm.split⟩
+      exact ⟨by simpa using hm.eq, fun _ h => (by cases h), hm.mem, hm.lastBreak, hm.lt, hm.split⟩
 
 theorem scan_none (alts : List (List Nat)) (n : Nat) (s : List Nat) (h : splitFirst alts s = none) :
     scan alts (n + 1) s = if s = [] then [] else [(s, [])] := by
@@ -477,16 +473,16 @@ theorem scan_some (alts : List (List Nat)) (n : Nat) (s l sep rest : List Nat)
     scan alts (n + 1) s = (l, sep) :: (if rest = [] then [([], [])] else scan alts n rest) := by
   rw [scan, h]
 
-theorem strBreak_10 : strBreak 10 = true := by decide
+theorem lineBreakChar_10 : lineBreakChar 10 = true := by decide
 
-theorem scan_lines (n : Nat) (s : List Nat) (hn : s.length ≤ n) (hfs : NoFS s) :
-    (scan E (n + 1) s).map (·.1) = pySplitlines s ++ (if endsWithBreak s then [[]] else []) := by
+theorem scan_lines (n : Nat) (s : List Nat) (hn : s.length ≤ n) :
+    (scan E (n + 1) s).map (·.1) = eightSplitlines s ++ (if endsWithBreak s then [[]] else []) := by
   induction n generalizing s with
   | zero =>
     have : s = [] := List.length_eq_zero_iff.mp (by omega)
     subst this
     rw [scan_none _ _ _ splitFirst_nil]
-    simp [pySplitlines, aux_nil, endsWithBreak, lastIs]
+    simp [eightSplitlines, aux_nil, endsWithBreak, lastIs]
   | succ n ih =>
     cases hsf : splitFirst E s with
     | none =>
@@ -495,29 +491,42 @@ theorem scan_lines (n : Nat) (s : List Nat) (hn : s.length ≤ n) (hfs : NoFS s)
       have he : endsWithBreak s = false := lastIs_false_of_all _ _ hnb
       rw [he]
       by_cases hs : s = []
-      · subst hs; simp [pySplitlines, aux_nil]
-      · have hnb' : NoBrk strBreak s := fun c hc => by rw [strBreak_eq, hnb c hc, hfs c hc]; rfl
-        simp [hs, pySplitlines, aux_noBrk strBreak strBreak_10 s hs hnb' false]
+      · subst hs; simp [eightSplitlines, aux_nil]
+      · simp [hs, eightSplitlines, aux_noBrk lineBreakChar lineBreakChar_10 s hs hnb false]
     | some x =>
       obtain ⟨l, sep, rest⟩ := x
       obtain ⟨h1, h2, h3, h4, h5, h6⟩ := splitFirst_some s l sep rest hsf
       rw [scan_some _ _ _ _ _ _ hsf]
-      have hfl : NoFS l := fun c hc => hfs c (by rw [h1]; simp [hc])
-      have hfr : NoFS rest := fun c hc => hfs c (by rw [h1]; simp [hc])
       have hsep : sep ≠ [] := by intro h; subst h; simp [lastIs] at h4
-      rw [h6 hfl]
+      rw [h6]
       by_cases hr : rest = []
       · subst hr
         have he : endsWithBreak s = true := by
           rw [h1]; simp only [List.append_nil]
           unfold endsWithBreak
           rw [lastIs_append _ _ _ hsep, h4]
-        simp [he, pySplitlines, aux_nil]
+        simp [he, eightSplitlines, aux_nil]
       · have he : endsWithBreak s = endsWithBreak rest := by
           rw [h1]; unfold endsWithBreak; rw [lastIs_append _ _ _ hr]
         simp only [hr, if_false, List.map_cons, he]
-        rw [ih rest (by omega) hfr]
+        rw [ih rest (by omega)]
         simp
+
+/-- two break predicates that agree on the characters of a text split it alike -/
+theorem aux_congr (b1 b2 : Nat → Bool) (f : Bool) (s : List Nat) (h : ∀ c ∈ s, b1 c = b2 c) :
+    splitlinesAux b1 f s = splitlinesAux b2 f s := by
+  induction s generalizing f with
+  | nil => simp [aux_nil]
+  | cons c cs ih =>
+    have ih := fun f => ih f (fun d hd => h d (by simp [hd]))
+    rw [aux_cons, aux_cons, h c (by simp), ih, ih]
+
+/-- on texts without U+001C..U+001E `str.splitlines` is the split at the eight forms -/
+theorem pySplitlines_eq_eight (t : List Nat) (h : NoFS t) : pySplitlines t = eightSplitlines t := by
+  unfold pySplitlines eightSplitlines
+  apply aux_congr
+  intro c hc
+  rw [strBreak_eq, h c hc]; simp
 
 theorem scan_pieces (n : Nat) (s : List Nat) (hn : s.length ≤ n) :
     (scan E (n + 1) s).flatMap (fun p => p.1 ++ p.2) = s ∧
